@@ -343,3 +343,28 @@ Fixpoint first_bad (k : kind) (cap : nat) (s : state) (n : nat) (l : list (actio
         end
       else Some (n, false, Some s)
   end.
+
+(* ---- interface for the generated case files (everything given as Z literals) --------------------------- *)
+Definition zn (z : Z) : nat := Z.to_nat z.
+Definition Rq (p prio : Z) (pre : bool) : action := ARequest (zn p) prio pre.
+Definition Rl (r : Z) : action := ARelease (zn r).
+Definition Cn (r : Z) : action := ACancel (zn r).
+Definition Ex (r : Z) : action := AExit (zn r).
+Definition Pq (i : Z) : action := AProcess (EReq (zn i)).      (* a Request event is processed *)
+Definition Pr (i : Z) : action := AProcess (ERel (zn i)).      (* a Release event is processed *)
+Definition Ad (t : Z) : action := AAdvance t.
+Definition mkev (x : bool * Z) : ev := if fst x then ERel (zn (snd x)) else EReq (zn (snd x)).
+Definition Sn (t : Z) (us qs : list Z) (cnt : Z) (pe : list (bool * Z)) (tr : list Z) (ni : Z) : snap :=
+  (t, map zn us, map zn qs, zn cnt, map mkev pe, map zn tr, zn ni).
+Definition In3 (v b : Z) (us : option Z) : nat * nat * option Z := (zn v, zn b, us).
+Definition kind_of (z : Z) : kind := if (z =? 0)%Z then KRes else if (z =? 1)%Z then KPrio else KPreempt.
+Definition agreeZ (k cap t0 : Z) (l : list (action * snap)) (is : list (nat * nat * option Z)) : bool :=
+  agree (kind_of k) (zn cap) t0 l is.
+(* readable dump of a state for diagnosis *)
+Definition dump (s : state) :=
+  (now s, map rid (users s), map rid (queue s), pending s, granted s, map intr_fields (intrs s), next_id s).
+Definition diagZ (k cap t0 : Z) (l : list (action * snap)) :=
+  match first_bad (kind_of k) (zn cap) (init t0) 0 l with
+  | None => None
+  | Some (n, admissible, st) => Some (n, admissible, option_map dump st)
+  end.
